@@ -219,6 +219,15 @@ func VerifC08_Strings() {
 	if !vrt.Thorough() {
 		vrt.Assume(r < 0x80)
 		vrt.Bound("rune-below-0x80-in-quick", 1)
+	} else if k := vrt.Choice("rune-class", 9); k == 0 {
+		// the printable/escape classification walks the Unicode range tables: one path
+		// per table range, so the symbolic part stops at U+024F (two-byte UTF-8 included)
+		// and larger code points are sampled at the interesting boundaries (the run with
+		// an unconstrained rune did not finish in 45 minutes)
+		vrt.Assume(vrt.And(r >= 0, r < 0x250))
+		vrt.Bound("symbolic-rune-below-0x250-in-thorough-plus-8-boundary-code-points", 0x250)
+	} else {
+		r = []rune{0x2028, 0xFEFF, 0xFFFD, 0x10000, 0x10FFFF, 0xD7FF, 0xE000, 0x1F600}[k-1]
 	}
 	s := types.String("a" + string(r))
 	var n internalast.Node
